@@ -364,32 +364,33 @@ def gen_server(rng, k0, kn, lo, hi):
     24 grid steps of each other, and every readable record far away (near the ends of the query window - just inside,
     on and just outside them) carries the value V0 that the first and the last surviving near record carry too
     (slope 0 across the long gaps)."""
-    out = []
+    out, v0s = [], {}
     for n in rng.sample(['wind_speed', 'wind_speed_x', 'x', '_t', 'wind', 'class'], rng.randint(1, 4)):
-        v0 = rng.randint(-40, 40) * L24
+        v0s[n] = rng.randint(-40, 40) * L24
         near = []
         for _ in range(rng.randint(0, 5)):
-            k = rng.choice(near)[0] if near and rng.random() < 0.3 else rng.randint(k0 - 4, k0 + 20)
-            near.append([k, rng.randint(-40, 40) * L24, rng.choice(base.STATUSES[:3] * 3 + base.STATUSES)])
-        last = {}
-        for i, (k, v, st) in enumerate(near):
-            last[k] = i
-        alive = sorted(k for k, i in last.items() if near[i][2][:7] in base.DOC_VALID)
-        for k in alive[:1] + alive[-1:]:
-            near[last[k]][1] = v0
+            k = rng.choice(near)[1] if near and rng.random() < 0.3 else rng.randint(k0 - 4, k0 + 20)
+            near.append([n, k, rng.randint(-40, 40) * L24, rng.choice(base.STATUSES[:3] * 3 + base.STATUSES), True])
         far = []
         for _ in range(rng.randint(0, 4)):
             k = rng.choice([lo - 1, lo, lo + 1, hi - 1, hi, hi + 1, rng.randint(lo - 40, lo + 40), rng.randint(hi - 40, hi + 40)])
-            if k0 - 8 <= k <= kn + 8:
+            if k0 - 8 <= k <= k0 + 24:
                 continue
-            far.append([k, v0, rng.choice(base.STATUSES[:3] * 3 + base.STATUSES)])
-        recs = near + far
-        rng.shuffle(recs)
-        if rng.random() < 0.5:
-            recs.sort(key=lambda r: r[0])
-        out += [(n, k, v, st) for (k, v, st) in recs]
+            far.append([n, k, v0s[n], rng.choice(base.STATUSES[:3] * 3 + base.STATUSES), False])
+        out += near + far
     rng.shuffle(out)
-    return out
+    if rng.random() < 0.4:
+        out.sort(key=lambda r: r[1])
+    # in the FINAL order: the first and the last surviving near record of every sensor carry V0
+    for n, v0 in v0s.items():
+        last = {}
+        for i, r in enumerate(out):
+            if r[0] == n and r[4]:
+                last[r[1]] = i
+        alive = sorted(k for k, i in last.items() if out[i][3][:7] in base.DOC_VALID)
+        for k in alive[:1] + alive[-1:]:
+            out[last[k]][2] = v0
+    return [tuple(r[:4]) for r in out]
 
 
 def gen_api(rng):
